@@ -29,6 +29,7 @@ def default_quick_also(i):
     """secondary properties for which an instance is also part of the quick tier (kept small: the umbrella
     properties C01 / C02 / C05 would otherwise re-run every kernel of the framework on every change)"""
     n = i.id
+    if n == "fn.strpos.ssi.g": return ["C10", "C05"]
     if n.endswith(".g"): return [p for p in i.props[1:] if p in ("C10", "C03")]      # generic builtin instances: also under the value property of their builtin
     if re.match(r"op\.(add|sub|mul|div|mod|and|ior|xor|pop|pus)\.ii$", n): return ["C01", "C02", "C05"]
     if re.match(r"op\.(div|mul)\.(id|di)\.nv$", n): return ["C01", "C02"]
